@@ -55,6 +55,14 @@ Definition flush_line (b : wblock) : res wblock :=
 
 (* inner `for (idx, c) in piece.s[bpos..].char_indices()` of flush_word_hard_wrap.
    Returns (taken, lineleft, wpos). *)
+(* the zero-width characters (combining marks) that follow a character taken by the overflow
+   branch stay with it *)
+Fixpoint take_zw (s : text) : text :=
+  match s with
+  | c :: s' => match cw c with Some 0 => c :: take_zw s' | _ => [] end
+  | [] => []
+  end.
+
 Fixpoint hw_scan (ovf : bool) (line0 : tline) (first : bool) (s : text) (taken_rev : text)
          (lineleft wpos : N) : res (text * N * N) :=
   match s with
@@ -68,7 +76,7 @@ Fixpoint hw_scan (ovf : bool) (line0 : tline) (first : bool) (s : text) (taken_r
       else if first
       then do lw <- tl_width line0;
            if lw =? 0
-           then if ovf then Ok ([c], lineleft, wpos + c_w) else TooNarrow
+           then if ovf then Ok (c :: take_zw s', lineleft, wpos + c_w) else TooNarrow
            else Ok (rev taken_rev, lineleft, wpos)
       else Ok (rev taken_rev, lineleft, wpos)
     end
